@@ -1109,7 +1109,9 @@ class Server:
 
     @ConnectionConditions(ConnectionConditions.login_required)
     async def pwd(self, connection, rest):
-        code, info = "257", f'"{connection.current_directory}"'
+        # double quotes inside the path are doubled (RFC 959, appendix II)
+        path = str(connection.current_directory).replace('"', '""')
+        code, info = "257", f'"{path}"'
         connection.response(code, info)
         return True
 
